@@ -39,7 +39,7 @@ MB_FUNCS = {"double": mb_double, "plus_blocksum": mb_plus_blocksum, "reverse": m
 # ops whose optimizer paths are healthy on the unchanged tree; the long tail of optimizer crashes around
 # take/repeat/broadcast_to/reshape/roll/sliding windows is recorded once, by C01/C02, as known findings
 CORE_OPS = ["elem2", "elem1", "scalar", "T", "slice", "rechunk", "concat", "stack", "expand", "squeeze", "reduce", "cum",
-            "map_blocks", "flip", "where", "diff", "astype", "boolmask_reduce"]
+            "map_blocks", "flip", "where", "diff", "astype", "boolmask_reduce", "setitem", "where_out"]
 
 ELEM2 = ["add", "subtract", "multiply", "maximum", "minimum"]
 ELEM1 = ["negative", "abs", "square"]
@@ -50,6 +50,8 @@ def rand_chunks_for(rng, n):
     if n == 0:
         return (0,)
     k = min(n, rng.choice([1, 1, 2, 2, 3, 4]))
+    if rng.random() < 0.1:
+        k = min(n, rng.choice([5, 7, 8, 9, 12, 16]))      # deep trees / many-block scans
     cuts = sorted(rng.sample(range(1, n), k - 1)) if k > 1 else []
     return tuple(b - a for a, b in zip([0] + cuts, cuts + [n]))
 
@@ -98,6 +100,16 @@ class Gen:
             return ("src", k), self.sources[k][0]
         rank = rng.choice([1, 1, 2, 2, 3][: 2 + self.max_rank])
         shape = tuple(rng.choice([0, 1, 2, 3, 4, 5, 6, self.max_dim][1 if rng.random() < 0.93 else 0:]) for _ in range(rank))
+        if rng.random() < 0.08:
+            shape = tuple(rng.choice([9, 12, 16]) if i == 0 else sdim for i, sdim in enumerate(shape))
+        if r > 0.93 and "fftfreq" in (self.ops or ["fftfreq"]):
+            # float leaves from a tiny parameter set, so that a user arange and fftfreq's internal arange can coincide by name
+            n = rng.choice([6, 8, 12])
+            ch = rng.choice([(n,), (n // 2, n // 2)])
+            if rng.random() < 0.5:
+                return ("arangef", n, ch), np.arange(n, dtype="float64")
+            d = rng.choice([1.0, 0.5])
+            return ("fftfreq", n, d, ch), np.fft.fftfreq(n, d)
         if r < 0.8:
             data = (np.arange(int(np.prod(shape)), dtype="int64").reshape(shape) * 7 + rng.randint(0, 5)) % 23 - 5
             if self.unique:
@@ -116,7 +128,7 @@ class Gen:
         rng = self.rng
         ops = self.ops or ["elem2", "elem1", "scalar", "T", "slice", "rechunk", "concat", "stack", "expand", "squeeze",
                            "reduce", "cum", "map_blocks", "broadcast_to", "flip", "roll", "take", "swv", "where", "repeat",
-                           "diff", "reshape", "astype", "map_overlap", "boolmask_reduce"]
+                           "diff", "reshape", "astype", "map_overlap", "boolmask_reduce", "setitem", "where_out", "diag", "view"]
         for _ in range(12):
             op = rng.choice(ops)
             try:
@@ -342,7 +354,7 @@ class Gen:
             shape = tuple(v.shape[:-1]) + (d, n // d)
             return ("reshape", p, shape), v.reshape(shape)
         if op == "astype":
-            dt = rng.choice(["float64", "int32", "int64"])
+            dt = rng.choice(["float64", "int32", "int64"]) if v.dtype.kind in "iub" else "float64"   # never truncate floats
             return ("astype", p, dt), v.astype(dt)
         if op == "map_overlap":
             if nd == 0 or v.dtype.kind not in "iuf" or any(n == 0 for n in v.shape):
@@ -353,6 +365,52 @@ class Gen:
             if v.shape[ax] < depth + 1:
                 return None
             return ("map_overlap", p, depth, ax, boundary), overlap_numpy(v, depth, ax, boundary)
+        if op == "setitem":
+            if nd == 0 or v.dtype.kind not in "iu":
+                return None
+            key = rand_index(rng, v.shape, allow_none=False, allow_int=True, neg_step=False)
+            tgt = v[key]
+            kind = rng.choice(["scalar", "array", "array", "row"])
+            if kind == "scalar" or tgt.ndim == 0 or tgt.size == 0:
+                val = ("const", rng.randint(-9, 9))
+                valv = val[1]
+            else:
+                shape = tgt.shape if kind == "array" else tgt.shape[-1:]
+                valv = (np.arange(int(np.prod(shape)), dtype="int64").reshape(shape) + 100)
+                self.sources.append((valv, tuple((n,) if n else (0,) for n in shape)))
+                val = ("src", len(self.sources) - 1) if rng.random() < 0.5 else ("nparray", len(self.sources) - 1)
+            out = v.copy()
+            out[key] = valv
+            return ("setitem", p, key, val), out
+        if op == "where_out":
+            if nd == 0 or v.dtype.kind not in "iu":
+                return None
+            q, w = self._other(v)
+            if w.dtype != np.dtype("int64") or v.dtype != np.dtype("int64"):
+                return None
+            mshape = v.shape[-1:] if rng.random() < 0.6 else v.shape
+            mask = (np.arange(int(np.prod(mshape))).reshape(mshape) % 3) != 0
+            self.sources.append((mask, tuple(rand_chunks_for(rng, n) for n in mshape)))
+            m = ("src", len(self.sources) - 1)
+            base = (np.arange(int(np.prod(v.shape)), dtype="int64").reshape(v.shape) % 5) - 50
+            self.sources.append((base, tuple(rand_chunks_for(rng, n) for n in v.shape)))
+            o = ("src", len(self.sources) - 1)
+            f = rng.choice(["add", "multiply", "subtract"])
+            res = getattr(np, f)(v, w, where=np.broadcast_to(mask, v.shape), out=base.copy())
+            return ("where_out", f, p, q, m, o), res
+        if op == "diag":
+            if nd == 1 and v.shape[0] <= 6:
+                return ("diag", p), np.diag(v)
+            if nd == 2 and v.shape[0] == v.shape[1]:
+                return ("diag", p), np.diag(v)
+            return None
+        if op == "view":
+            if nd == 0 or v.dtype != np.dtype("int64") or v.size == 0:
+                return None
+            order = rng.choice(["C", "F"]) if nd > 1 else "C"
+            dt = rng.choice(["int32", "uint64", "float64"])
+            val = np.ascontiguousarray(v).view(dt) if order == "C" else np.ascontiguousarray(v.T).view(dt).T
+            return ("view", p, dt, order), val
         if op == "boolmask_reduce":
             if nd != 1 or v.size == 0:
                 return None
@@ -503,6 +561,24 @@ def build(prog, da, sources, memo=None, hooks=None):
     elif t == "boolmask":
         x = rec(prog[1])
         out = x[x > prog[2]]
+    elif t == "arangef":
+        out = da.arange(prog[1], chunks=(prog[2],), dtype="float64")
+    elif t == "fftfreq":
+        out = da.fft.fftfreq(prog[1], prog[2], chunks=(prog[3],))
+    elif t == "nparray":
+        out = sources[prog[1]][0]
+    elif t == "setitem":
+        out = rec(prog[1]).copy()
+        out[prog[2]] = rec(prog[3])
+    elif t == "where_out":
+        _, f, a, b, m, o = prog
+        od = rec(o).copy()
+        out = getattr(da, f)(rec(a), rec(b), where=rec(m), out=od)
+        out = od if out is None else out
+    elif t == "diag":
+        out = da.diag(rec(prog[1]))
+    elif t == "view":
+        out = rec(prog[1]).view(prog[2], order=prog[3])
     else:
         raise ValueError(f"unknown op {t}")
     memo[key] = (prog, out)
@@ -516,7 +592,7 @@ def show(prog, depth=0):
     if not isinstance(prog, tuple):
         return repr(prog)
     t = prog[0]
-    if t in ("src", "ones", "arange", "const"):
+    if t in ("src", "ones", "arange", "const", "arangef", "fftfreq", "nparray"):
         return "(" + " ".join([t] + [repr(x) for x in prog[1:]]) + ")"
     parts = []
     for x in prog[1:]:
@@ -531,14 +607,14 @@ def show(prog, depth=0):
 
 KNOWN_TAGS = {"src", "ones", "arange", "const", "elem", "T", "slice", "rechunk", "concat", "stack", "expand", "squeeze",
               "reduce", "cum", "map_blocks", "broadcast_to", "flip", "roll", "take", "swv", "where", "repeat", "diff",
-              "reshape", "astype", "map_overlap", "boolmask"}
+              "reshape", "astype", "map_overlap", "boolmask", "arangef", "fftfreq", "nparray", "setitem", "where_out", "diag", "view"}
 
 
 def subprograms(prog):
     """children programs of a node (for shrinking)"""
     out = []
     for x in prog[1:]:
-        if isinstance(x, tuple) and x and isinstance(x[0], str) and x[0] in KNOWN_TAGS and x[0] != "const":
+        if isinstance(x, tuple) and x and isinstance(x[0], str) and x[0] in KNOWN_TAGS and x[0] not in ("const", "nparray"):
             out.append(x)
         elif isinstance(x, tuple) and x and all(isinstance(y, tuple) and y and isinstance(y[0], str) and y[0] in KNOWN_TAGS for y in x):
             out.extend(x)
@@ -645,6 +721,24 @@ def eval_np(prog, sources, memo=None):
     elif t == "boolmask":
         x = rec(prog[1])
         out = x[x > prog[2]]
+    elif t == "arangef":
+        out = np.arange(prog[1], dtype="float64")
+    elif t == "fftfreq":
+        out = np.fft.fftfreq(prog[1], prog[2])
+    elif t == "nparray":
+        out = sources[prog[1]][0]
+    elif t == "setitem":
+        out = np.array(rec(prog[1]), copy=True)
+        out[prog[2]] = rec(prog[3])
+    elif t == "where_out":
+        _, f, a, b, m, o = prog
+        x = rec(a)
+        out = getattr(np, f)(x, rec(b), where=np.broadcast_to(rec(m), np.shape(x)), out=np.array(rec(o), copy=True))
+    elif t == "diag":
+        out = np.diag(rec(prog[1]))
+    elif t == "view":
+        x = rec(prog[1])
+        out = np.ascontiguousarray(x).view(prog[2]) if prog[3] == "C" else np.ascontiguousarray(x.T).view(prog[2]).T
     else:
         raise ValueError(t)
     memo[key] = (prog, out)
@@ -676,7 +770,7 @@ def shrink(prog, sources, fails):
 
 
 def describe(prog, sources):
-    used = sorted({q[1] for q in all_nodes(prog) if q[0] == "src"})
+    used = sorted({q[1] for q in all_nodes(prog) if q[0] in ("src", "nparray")})
     return {"program": show(prog),
             "sources": {k: {"shape": list(sources[k][0].shape), "chunks": sources[k][1],
                             "data": sources[k][0].tolist() if sources[k][0].size <= 64 else "<%d elements>" % sources[k][0].size}
@@ -700,7 +794,7 @@ def all_nodes(prog, acc=None, seen=None):
 def dump_case(path, prog, sources, note=""):
     import os
     os.makedirs(os.path.dirname(path), exist_ok=True)
-    used = sorted({q[1] for q in all_nodes(prog) if q[0] == "src"})
+    used = sorted({q[1] for q in all_nodes(prog) if q[0] in ("src", "nparray")})
     with open(path, "w") as f:
         f.write("# " + note.replace("\n", " ") + "\n")
         f.write(repr({"prog": prog, "sources": {k: (sources[k][0].tolist(), str(sources[k][0].dtype), list(sources[k][0].shape), sources[k][1]) for k in used}}))
@@ -722,3 +816,16 @@ def corpus_cases(pid):
     base = os.path.join(os.path.dirname(os.path.dirname(os.path.abspath(__file__))), "corpus", pid)
     for p in sorted(glob.glob(os.path.join(base, "*.py"))):
         yield os.path.basename(p)[:-3], *load_case(p)
+
+
+def all_leaf_uses(prog):
+    """every OCCURRENCE of a leaf in the program text (shared sub-tuples counted once per use)"""
+    out = []
+
+    def rec(q):
+        if q[0] in ("src", "ones", "arange", "arangef", "fftfreq"):
+            out.append(q)
+        for c in subprograms(q):
+            rec(c)
+    rec(prog)
+    return out
